@@ -56,8 +56,16 @@ func c02Gen(rng *rand.Rand, tier string) []Case {
 		}
 		out = append(out, Case{ID: fmt.Sprintf("b%d", i), Ops: ops, Nontrivial: true, Tags: []string{"buffered-intents"}})
 	}
-	for i := 0; i < nr; i++ {
-		c := nodeRandomCase(rng, c02Profile, fmt.Sprintf("r%d", i))
+	nlong := 0
+	if tier == "thorough" {
+		nlong = 300 // long histories
+	}
+	for i := 0; i < nr+nlong; i++ {
+		prof := c02Profile
+		if i >= nr {
+			prof.maxLen = 160
+		}
+		c := nodeRandomCase(rng, prof, fmt.Sprintf("r%d", i))
 		// non-trivial: an intent for a not-yet-announced member or an intent older than an earlier one
 		// about the same member, and a merge
 		joined := map[string]bool{nodeSelf: true}
